@@ -256,11 +256,12 @@ impl C17 {
     fn ctor(&self, _ctx: &mut Ctx, _s: &str) {}
 }
 
-const CT_ALPHA: [&str; 6] = ["a", " ", "é", "€", "𐍈", "\0"];
+// incl. characters whose code point is a multiple of 256 (U+0100, U+4E00, U+1F600)
+const CT_ALPHA: [&str; 9] = ["a", " ", "é", "€", "𐍈", "\0", "Ā", "一", "😀"];
 
 impl Driver for C17 {
     fn ncases(&self, ctx: &Ctx) -> u64 {
-        3 * nwords(max_word(ctx)) + 1555 + 200
+        3 * nwords(max_word(ctx)) + 7381 + 200
     }
 
     fn run_case(&mut self, ctx: &mut Ctx, idx: u64) {
@@ -292,18 +293,18 @@ impl Driver for C17 {
             return;
         }
         let k = idx - 3 * nw;
-        if k < 1555 {
-            // all strings of <= 4 chars over {a, space, é, €, 𐍈, NUL}: 1+6+36+216+1296
+        if k < 7381 {
+            // all strings of <= 4 chars over the 9-symbol alphabet: 1+9+81+729+6561
             let mut k = k;
             let mut len = 0;
-            while k >= 6u64.pow(len) {
-                k -= 6u64.pow(len);
+            while k >= 9u64.pow(len) {
+                k -= 9u64.pow(len);
                 len += 1;
             }
             let mut s = String::new();
             for _ in 0..len {
-                s.push_str(CT_ALPHA[(k % 6) as usize]);
-                k /= 6;
+                s.push_str(CT_ALPHA[(k % 9) as usize]);
+                k /= 9;
             }
             self.ctor(ctx, &s);
         } else {
